@@ -137,6 +137,10 @@ func (p Precompile) Run(evm *vm.EVM, contract *vm.Contract, readOnly bool) (bz [
 	// It avoids panics and returns the out of gas error so the EVM can continue gracefully.
 	defer cmn.HandleGasError(ctx, contract, initialGas, &err)()
 
+	// Run the method on a branch of the state that is only written back once it has completed:
+	// authz updates the grant before it runs the bank send, a failed send must not keep that update.
+	ctx, writeCache := ctx.CacheContext()
+
 	bz, err = p.HandleMethod(ctx, contract, stateDB, method, args)
 	if err != nil {
 		return nil, err
@@ -147,6 +151,8 @@ func (p Precompile) Run(evm *vm.EVM, contract *vm.Contract, readOnly bool) (bz [
 	if !contract.UseGas(cost) {
 		return nil, vm.ErrOutOfGas
 	}
+
+	writeCache()
 
 	return bz, nil
 }
